@@ -182,7 +182,7 @@ const (
 	//   0123456789abcdef0123456789abcdef
 	intMode = "" +
 		".........II..I.................." + // 0x00
-		"I.......II.a.a..aaaaaaaaaa......" + // 0x20
+		"I.......II.a.a.aaaaaaaaaaa......" + // 0x20
 		".aaaaaaaaaaaaaaaaaaaaaaaaaa....." + // 0x40
 		".aaaaaaaaaaaaaaaaaaaaaaaaaa......" + // 0x60
 		"................................" + // 0x80
@@ -1179,6 +1179,18 @@ func (r *reader) pushInteger(src []byte) {
 	var obj Object
 	if i, err := strconv.ParseInt(token, r.base, 64); err == nil {
 		obj = Fixnum(i)
+	} else if pos := strings.IndexByte(token, '/'); 0 < pos {
+		// A ratio such as #b1/11 or #16r-a/f.
+		var (
+			num big.Int
+			den big.Int
+		)
+		_, nok := num.SetString(token[:pos], r.base)
+		_, dok := den.SetString(token[pos+1:], r.base)
+		if !nok || !dok || den.Sign() <= 0 {
+			r.raise("%s is not a valid base %d ratio", token, r.base)
+		}
+		obj = NewBigRatio(&num, &den)
 	} else {
 		bi := big.NewInt(0)
 		if _, ok := bi.SetString(token, r.base); ok {
